@@ -1685,3 +1685,125 @@ Proof.
 Qed.
 
 (* (c) the boundary on the ids stays C08_order_wrap_finding (above): ids 999998 999999 0 1 of one read. *)
+
+(* ================================================================================================== *)
+(* added from Properties/C08_add.v, job pj_fix (2026-10-01)                                   *)
+(* ================================================================================================== *)
+(* C08 (addition): non-vacuity examples for C08_write_safe_weaker, C08_side_conditions_weaker, C08_read_order_counter_independent,
+   C08_order_source_condition, C08_keys_pure_counter_independent and C08_ids_renamed.
+   To be appended to Properties/C08.v. *)
+From Coq Require Import String.
+From Coq Require Import NArith ZArith List Bool.
+From DictIO Require Import Chars Str Value Scalar Lexer MiscSpec CliProofs KeyPath SDict Layout TokParser Reader.
+From DictIO Require Parse.
+From DictIO Require Import CounterBase CounterLex CounterParse CounterProofs CounterRead CounterWrite CounterWriteWeak CounterOrder.
+Import ListNotations.
+
+(* the SDict read from c08_fs2 (two files: main.dict with two line comments, an include directive, a block comment and two
+   string literals; the included sub.dict merged in: ten top level entries, three line comments, one include) is write_safe,
+   so by the theorem it is write_safe' and foam_write_safe' *)
+Example C08_write_safe_weaker_nonvacuous :
+  let s := c08_sd (read_plain c08_fs2 c08_root true true (-1)) in
+  write_safe s = true /\
+  (List.length (sd_data s), map fst (sd_lc s), map fst (sd_inc s), List.length (sd_bc s)) = (10%nat, [0; 1; 5]%N, [2]%N, 1%nat) /\
+  write_safe' s = true /\ foam_write_safe' s = true.
+Proof.
+  cbv zeta.
+  assert (H1 : write_safe (c08_sd (read_plain c08_fs2 c08_root true true (-1))) = true) by (vm_compute; reflexivity).
+  split; [exact H1|]. split; [vm_compute; reflexivity|].
+  exact (C08_write_safe_weaker _ H1).
+Qed.
+
+(* the four strong side conditions hold of the read of c08_fs2 (native and Foam formatter, the SDict as a write_sd source,
+   the parse_model run with output None and foam); the theorem gives the four weak ones *)
+Example C08_side_conditions_weaker_nonvacuous :
+  let r := read_plain c08_fs2 c08_root true true (-1) in
+  (exists s k, r = Ok (s, k) /\ List.length (sd_data s) = 10%nat) /\
+  write_side to_string_sd r = true /\ write_side foam_to_string_sd r = true /\
+  write_sd_side false (c08_sd r) = true /\ write_sd_side true (c08_sd r) = true /\
+  pm_side c08_fs2 c08_root None (-1) = true /\ pm_side c08_fs2 c08_root (Some (of_string "foam")) (-1) = true /\
+  write_side' false r = true /\ write_side' true r = true /\
+  write_sd_side' false (c08_sd r) = true /\ write_sd_side' true (c08_sd r) = true /\
+  pm_side' c08_fs2 c08_root None (-1) = true /\ pm_side' c08_fs2 c08_root (Some (of_string "foam")) (-1) = true.
+Proof.
+  cbv zeta.
+  assert (H0 : exists s k, read_plain c08_fs2 c08_root true true (-1) = Ok (s, k) /\ List.length (sd_data s) = 10%nat)
+    by (do 2 eexists; split; vm_compute; reflexivity).
+  assert (H1 : write_side to_string_sd (read_plain c08_fs2 c08_root true true (-1)) = true) by (vm_compute; reflexivity).
+  assert (H2 : write_side foam_to_string_sd (read_plain c08_fs2 c08_root true true (-1)) = true) by (vm_compute; reflexivity).
+  assert (H3 : write_sd_side false (c08_sd (read_plain c08_fs2 c08_root true true (-1))) = true) by (vm_compute; reflexivity).
+  assert (H4 : write_sd_side true (c08_sd (read_plain c08_fs2 c08_root true true (-1))) = true) by (vm_compute; reflexivity).
+  assert (H5 : pm_side c08_fs2 c08_root None (-1) = true) by (vm_compute; reflexivity).
+  assert (H6 : pm_side c08_fs2 c08_root (Some (of_string "foam")) (-1) = true) by (vm_compute; reflexivity).
+  destruct C08_side_conditions_weaker as [W1 [W2 [W3 W4]]].
+  exact (conj H0 (conj H1 (conj H2 (conj H3 (conj H4 (conj H5 (conj H6
+         (conj (W1 _ H1) (conj (W2 _ H2) (conj (W3 _ _ H3) (conj (W3 _ _ H4) (conj (W4 _ _ _ _ H5) (W4 _ _ _ _ H6))))))))))))).
+Qed.
+
+(* ---- order = true ------------------------------------------------------------------------------------------------ *)
+(* DictReader.read(order=True) of c08_fs2 (two files, an include merged, eight ids drawn) at the counters 5 and 123456: the
+   side condition order_side holds of the first read; by the theorem the second result is the renamed first *)
+Example C08_read_order_counter_independent_nonvacuous :
+  counter_ok 5 /\ fs_ok c08_fs2 = true /\ cleanb c08_root = true /\
+  order_side (123456 - 5) (read_plain c08_fs2 c08_root true true 5) = true /\
+  (exists n, Parse.read_opts c08_fs2 c08_root true true true [] 123456 =
+             option_map (map_res (rename_read (123456 - 5) (counter_iter n 123456))) (Parse.read_opts c08_fs2 c08_root true true true [] 5)) /\
+  (* the two results are not trivially equal: the ids of the line comment tables *)
+  (match Parse.read_opts c08_fs2 c08_root true true true [] 5, Parse.read_opts c08_fs2 c08_root true true true [] 123456 with
+   | Some (Ok (s1, _)), Some (Ok (s2, _)) => (map fst (sd_lc s1), map fst (sd_lc s2), List.length (sd_data s1))
+   | _, _ => ([], [], 0%nat)
+   end) = ([6; 7; 11]%N, [123457; 123458; 123462]%N, 10%nat).
+Proof.
+  destruct c08_ok as (H1 & H2 & H3).
+  assert (H5 : counter_ok 5) by (unfold counter_ok; split; discriminate).
+  assert (Hf : fs_ok c08_fs2 = true) by (vm_compute; reflexivity).
+  assert (Hr : cleanb c08_root = true) by (vm_compute; reflexivity).
+  assert (Ho : order_side (123456 - 5) (read_plain c08_fs2 c08_root true true 5) = true) by (vm_compute; reflexivity).
+  refine (conj H5 (conj Hf (conj Hr (conj Ho (conj (C08_read_order_counter_independent _ _ _ _ H5 H2 Hf Hr Ho) _))))).
+  vm_compute. reflexivity.
+Qed.
+
+(* the condition on the files and the two counters only (the read at the fresh counter) gives the condition on the first read *)
+Example C08_order_source_condition_nonvacuous :
+  counter_ok 5 /\ fs_ok c08_fs2 = true /\ cleanb c08_root = true /\
+  source_order_ok c08_fs2 c08_root 5 123456 = true /\ source_order_ok c08_fs2 c08_root 123456 5 = true /\
+  order_side (123456 - 5) (read_plain c08_fs2 c08_root true true 5) = true /\
+  order_side (5 - 123456) (read_plain c08_fs2 c08_root true true 123456) = true /\
+  (* across the wrap the source condition fails *)
+  source_order_ok c08_fs2 c08_root (-1) 999997 = false.
+Proof.
+  destruct c08_ok as (H1 & H2 & H3).
+  assert (H5 : counter_ok 5) by (unfold counter_ok; split; discriminate).
+  assert (Hf : fs_ok c08_fs2 = true) by (vm_compute; reflexivity).
+  assert (Hr : cleanb c08_root = true) by (vm_compute; reflexivity).
+  assert (Ha : source_order_ok c08_fs2 c08_root 5 123456 = true) by (vm_compute; reflexivity).
+  assert (Hb : source_order_ok c08_fs2 c08_root 123456 5 = true) by (vm_compute; reflexivity).
+  refine (conj H5 (conj Hf (conj Hr (conj Ha (conj Hb (conj (C08_order_source_condition _ _ _ _ H5 H2 Hf Hr Ha)
+            (conj (C08_order_source_condition _ _ _ _ H2 H5 Hf Hr Hb) _))))))).
+  vm_compute. reflexivity.
+Qed.
+
+(* keys_pure of the SDict read from c08_fs2 and of its renaming by 999998 (ids across the wrap: the SDicts differ) *)
+Example C08_keys_pure_counter_independent_nonvacuous :
+  let s := c08_sd (read_plain c08_fs2 c08_root true true (-1)) in
+  keys_pure s = true /\ rename_sd 999998 s <> s /\ List.length (sd_data s) = 10%nat /\
+  keys_pure (rename_sd 999998 s) = keys_pure s /\ keys_pure (rename_sd 999998 s) = true.
+Proof.
+  cbv zeta.
+  assert (Hp : keys_pure (c08_sd (read_plain c08_fs2 c08_root true true (-1))) = true) by (vm_compute; reflexivity).
+  split; [exact Hp|]. split; [vm_compute; discriminate|]. split; [vm_compute; reflexivity|].
+  split; [exact (C08_keys_pure_counter_independent _ _)|].
+  rewrite (C08_keys_pure_counter_independent 999998 _). exact Hp.
+Qed.
+
+(* the ids of the renamed SDict, obtained from the theorem: shifted by 6, and by 999998 across the wrap *)
+Example C08_ids_renamed_nonvacuous :
+  let s := c08_sd (read_plain c08_fs2 c08_root true true (-1)) in
+  sd_ids s = [0; 1; 5; 2; 0; 2; 1; 5]%N /\
+  sd_ids (rename_sd 6 s) = [6; 7; 11; 8; 6; 8; 7; 11]%N /\
+  sd_ids (rename_sd 999998 s) = [999998; 999999; 3; 0; 999998; 0; 999999; 3]%N.
+Proof.
+  cbv zeta.
+  assert (Hi : sd_ids (c08_sd (read_plain c08_fs2 c08_root true true (-1))) = [0; 1; 5; 2; 0; 2; 1; 5]%N) by (vm_compute; reflexivity).
+  split; [exact Hi|]. rewrite !C08_ids_renamed, Hi. split; vm_compute; reflexivity.
+Qed.
